@@ -51,6 +51,73 @@ def cholSolveF (bw n : Nat) (L : Array (Array Float)) (b : Array Float) : Array 
 def kernelsF : Kernels Float :=
   { sqrt := Float.sqrt, isFinite := Float.isFinite, cholFactor := cholFactorF, cholSolve := cholSolveF }
 
+/-! Exact run (`α = Rat`): square-root-free stand-ins for the two kernels, a banded LDLᵀ factorisation and the
+matching solve.  The model treats the factor as opaque (it only pads it and hands it back to `cholSolve`), so the
+packing - D on band row 0, the unit lower factor's sub-diagonals on rows 1..bw-1 - is private to this pair.
+`K.sqrt` is only called by the fallback loop after `cholFactor` answered `none`; that path is NOT exact and the
+handler refuses to answer for it.  `sqrt := fun _ => 0` makes the model's fallback loop stop at its first column
+(`0 < d` fails) instead of grinding through rationals whose size explodes; its answer is discarded anyway. -/
+
+def q2 (m : Array (Array Rat)) (r c : Nat) : Rat := (m[r]!)[c]!
+
+/-- lower band form `A[r][c] = A_full[c+r][c]`; `none` as soon as a pivot `d_j ≤ 0`; else `F[0][j] = d_j`,
+`F[r][j] = L[j+r][j]` (unit lower `L`, `A = L D Lᵀ`); entries beyond the matrix are left unchanged -/
+def cholFactorQ (bw n : Nat) (A : Array (Array Rat)) : Option (Array (Array Rat)) := Id.run do
+  let mut F := A
+  for j in [0:n] do
+    let d := q2 F 0 j
+    if !(d > 0) then return none
+    -- v_r = A'[j+r][j] (column j of the current Schur complement, unscaled); l_r = v_r / d
+    let v : Array Rat := ((List.range bw).map fun r => if j + r < n then q2 F r j else 0).toArray
+    for r in [1:bw] do
+      if j + r < n then
+        F := F.modify r (fun row => row.modify j (fun a => a / d))
+    -- A'[j+i+r][j+i] -= l_i * d * l_{i+r} = l_i * v_{i+r}
+    for i in [1:bw] do
+      if j + i < n then
+        let li := q2 F i j
+        for r in [0:bw - i] do
+          if j + i + r < n then
+            F := F.modify r (fun row => row.modify (j + i) (fun a => a - li * v[i + r]!))
+  return some F
+
+/-- solves `L D Lᵀ x = b` with the packing of `cholFactorQ` -/
+def cholSolveQ (bw n : Nat) (F : Array (Array Rat)) (b : Array Rat) : Array Rat := Id.run do
+  let mut y := b
+  for i in [0:n] do                       -- L z = b
+    let mut s := y[i]!
+    for r in [1:bw] do
+      if r ≤ i then s := s - q2 F r (i - r) * y[i - r]!
+    y := y.set! i s
+  for i in [0:n] do                       -- D w = z
+    y := y.set! i (y[i]! / q2 F 0 i)
+  for ii in [0:n] do                      -- Lᵀ x = w
+    let i := n - 1 - ii
+    let mut s := y[i]!
+    for r in [1:bw] do
+      if i + r < n then s := s - q2 F r i * y[i + r]!
+    y := y.set! i s
+  return y
+
+def kernelsQ : Kernels Rat :=
+  { sqrt := fun _ => 0, isFinite := fun _ => true, cholFactor := cholFactorQ, cholSolve := cholSolveQ }
+
+/-- probe: a factorisation kernel that always answers; `fit` with it has status 0 exactly when the model reaches
+`K.cholFactor` (enough breakpoints, no diagonal entry ≤ mininf) -/
+def kernelsProbe : Kernels Rat :=
+  { sqrt := fun _ => 0, isFinite := fun _ => true, cholFactor := fun _ _ A => some A, cholSolve := fun _ _ _ b => b }
+
+def rats (j : Json) (k : String) : Except String (List Rat) := do
+  J.list (fun v => do pure (ratOfBits (← J.bits v))) (← J.fld j k)
+def encLQ (l : List Rat) : Json := J.ofList J.ofRat l
+def encMQ (m : Array (Array Rat)) : Json := J.ofList (fun r => encLQ r.toList) m.toList
+
+def bsOfQ (j : Json) : Except String (BS Rat) := do
+  pure { nord := ← J.fNat j "nord"
+         breakpoints := (← rats j "bk").toArray
+         mask := (← J.list J.bool (← J.fld j "mask")).toArray
+         coeff := (← rats j "coeff").toArray }
+
 def floats (j : Json) (k : String) : Except String (List Float) := do J.list J.float (← J.fld j k)
 def encL (l : List Float) : Json := J.ofList J.ofFloat l
 def encM (m : Array (Array Float)) : Json := J.ofList (fun r => encL r.toList) m.toList
@@ -83,6 +150,25 @@ def handle (j : Json) : Except String Json := do
     pure (resJ (fun (o : FitOut Float) => Json.mkObj [
       ("status", J.ofInt o.status), ("yfit", encL o.yfit), ("coeff", encL o.obj.coeff.toList),
       ("mask", J.ofList Json.bool o.obj.mask.toList), ("alpha", encM o.alpha), ("beta", encL o.beta.toList)]) r)
+  | "fitq" =>
+    -- the same model `fit`, run in exact rational arithmetic on the exact values of the bit patterns
+    let b ← bsOfQ j
+    let xs ← rats j "x"
+    let ys ← rats j "y"
+    let ws ← rats j "w"
+    let perm ← J.fNats j "perm"
+    if ys.length ≠ xs.length ∨ ws.length ≠ xs.length then throw "C09 fitq: lengths differ" else
+    match fit kernelsQ b xs ys ws perm with
+    | .error e => pure (Json.mkObj [("err", Json.str e)])
+    | .ok o =>
+      -- status ≠ 0 although the kernel was reached: `cholFactorQ` answered `none` and the model went into the
+      -- fallback loop (needs a real sqrt) - not an exact run, no answer
+      let viaFallback : Bool := o.status != 0 &&
+        (match fit kernelsProbe b xs ys ws perm with | .ok o2 => o2.status == 0 | .error _ => false)
+      if viaFallback then pure (Json.mkObj [("inexact", Json.str "fallback")]) else
+      pure (Json.mkObj [("exact", Json.bool true), ("ok", Json.mkObj [
+        ("status", J.ofInt o.status), ("yfit", encLQ o.yfit), ("coeff", encLQ o.obj.coeff.toList),
+        ("mask", J.ofList Json.bool o.obj.mask.toList), ("alpha", encMQ o.alpha), ("beta", encLQ o.beta.toList)])])
   | "chol" =>
     let l ← J.list (J.list J.float) (← J.fld j "l")
     let mininf ← J.fFloat j "mininf"
